@@ -387,6 +387,7 @@ func (n *Net) RoundTrip(req *http.Request) (*http.Response, error) {
 		Proto: "HTTP/1.1", ProtoMajor: 1, ProtoMinor: 1, Header: rec.hdr.Clone(), Request: req, ContentLength: int64(len(out))}
 	if req.Method == http.MethodHead {
 		resp.Body = http.NoBody
+		s.Logf("http#%d %s %s%s -> %d", ex.Seq, ex.Method, ex.To, ex.Path, rec.code)
 		return resp, nil
 	}
 	if n.KeepAlive && f.Kind == None {
